@@ -57,3 +57,31 @@ canary.register("C16", "engine", _cut, "GRAD-CUT")
 canary.register("C15", "engine", _rng, "PERS-RNG")
 canary.register("C05", "engine", _null, "NULL-1")
 canary.register("C19", "engine", _mix, "DT-MIX")
+
+
+def _lin(rule):
+    def run(prog):
+        from .report import RuleResult
+        from .rules.lin_word import check_linear_classes
+
+        res, res_ld = RuleResult("LIN-WORD", ""), RuleResult("LIN-LOGDET", "")
+        base = prog.find_class("Linear", "nflows.transforms.linear")
+        check_linear_classes(prog, base, res, res_ld)
+        if res.undecided or res_ld.undecided:
+            raise RuntimeError("canary undecided: %s" % (res.undecided + res_ld.undecided)[:2])
+        return res.findings + res_ld.findings
+
+    return run
+
+
+def _logspace(prog):
+    from .rules.c19 import logspace_findings
+
+    return logspace_findings(prog)
+
+
+# canaries/linear: a two-factor parameterisation with wrong factor order in weight_inverse() and
+# forward, an unflipped inverse log-det and a log(prod) -- and its corrected twin
+canary.register("C11", "linear", _lin("LIN-WORD"), "LIN-WORD")
+canary.register("C11", "linear", _lin("LIN-LOGDET"), "LIN-LOGDET")
+canary.register("C19", "linear", _logspace, "NUM-LOGSPACE")
